@@ -23,11 +23,19 @@ CLAIMS = {
              "generated records, every-prefix, one-byte mutations and arbitrary bytes.",
              technique="Lean 4 theorems (compositional codec lemmas) + differential correspondence of encode/decode",
              ref="8 C12"),
- "C06": dict(text="Model-level theorems: a call that returns a validation error returns the whole store unchanged and "
-             "emits no effect; same state => same verdict as the reference log. Correspondence + reference-log "
-             "oracle on rejected calls at every point of generated histories, cache statistics bracketed, then "
+ "C06": dict(text="Proved: a call that returns a validation error returns the whole store unchanged and emits no effect; at the system "
+             "level a rejected call is the identity on files, store, worker and cache at every reachable state, emits no event and is "
+             "invisible to every continuation incl. flush, drop and reopen (c06_sys_rejected_is_identity_reachable, "
+             "c06_rejected_invisible_forever); a batch with a rejected entry behaves exactly as the batch of its accepted prefix "
+             "(c06_sys_batch_rejected_prefix); same state => same verdict as the reference log. Normalisation (Props/C06Normal, "
+             "c06_normalize_partial): EVERY history of well-formed calls (accepted or not, index u64::MAX included), flushes and worker "
+             "steps ends in exactly the same system as the explicit legal history obtained by deleting rejected calls and cutting batches "
+             "to their accepted prefix - under the one hypothesis that purges are Raft-legal (the store applies any purge; "
+             "last example of the file) - so the per-history theorems (state = reference, reads never panic, clean restart, crash "
+             "prefix) hold for all such histories (…_any_history_partial). Correspondence + reference-log oracle on rejected calls at every "
+             "point of generated histories, cache statistics and residents bracketed, metamorphic twin without the rejected calls, then "
              "flush/restart.",
-             technique="Lean 4 step lemma (rejected call = identity on the model state) + correspondence/oracle against the reference log",
+             technique="Lean 4 theorems (rejected call = identity on the whole system; normalisation of arbitrary histories to legal ones) + correspondence/oracle against the reference log",
              ref="8 C06"),
  "C15": dict(text="Invariant proved for every history of calls (accepted and rejected), flushes, drains and worker "
              "steps with arbitrary outcomes from a fresh store: size = sum of resident payload sizes, keys distinct "
@@ -52,10 +60,19 @@ CLAIMS = {
              ref="8 C16"),
  "C11": dict(text="Proved: file-name round trip / fixed length / injectivity / order-isomorphism for every u64 id (digit-list proofs, "
              "not samples); returned segment = place of the record; rotation rule; new chunk abuts and starts with the state "
-             "snapshot. The byte-level journal invariant (files = head + one record per accepted write in call order) is "
-             "decided by the correspondence run (dump of every record, directory listing, on-disk size) plus an "
-             "implementation-only oracle over returned segments, dump, stat and dir.",
-             technique="Lean 4 theorems (names, segment, rotation) + correspondence/oracle on dump, directory and segments",
+             "snapshot. The byte-level journal invariant J (files = head snapshot + one record per accepted write in call order, names = "
+             "global offsets, consecutive files abut) holds in every reachable state, for every cfg, every worker outcome "
+             "(c11_journal_invariant; c11_journal_invariant_reach across restarts and crash recovery). Second sentence of the property "
+             "(Props/C11Full), for every history with no legality hypothesis: after every call the open chunk is below both limits, or "
+             "holds only its head record under degenerate limits (c11_open_chunk_never_full, exact exception stated); a rotation is "
+             "never blocked in such histories (c11_rotation_never_blocked); every closed chunk was full when closed and not full before "
+             "its last record (c11_closed_chunks_full_when_closed); the rule survives clean restarts that keep the limits "
+             "(c11_rotation_rule_reach; a restart with smaller limits re-opens a chunk that is already full: "
+             "c11_restart_open_chunk_may_be_full); reported on-disk size = journal end - oldest live chunk id = total of the chunk "
+             "lengths, and = the total length of the files in the directory when quiescent (c11_on_disk_size_is_files_total[_reach]). "
+             "Correspondence run (dump of every record, directory listing, on-disk size) plus an implementation-only oracle over "
+             "returned segments, dump, stat and dir.",
+             technique="Lean 4 theorems (names, segment, rotation rule, journal invariant, size) + correspondence/oracle on dump, directory and segments",
              ref="8 C11"),
  "C13": dict(text="Lock protocol proved on the model for every interleaving of open / Dump::new / drop / writes / worker steps: at "
              "most one owner, a refused attempt is the identity (no file-system event), after the owner's drop the lock is "
